@@ -1,5 +1,5 @@
 (* dispatcher of the correspondence checks *)
-From Smtp Require Import Bytes Sx CheckBase CheckDr CheckConv CheckReply CheckLmtpConv CheckLife.
+From Smtp Require Import Bytes Sx CheckBase CheckDr CheckConv CheckReply CheckLmtpConv CheckLife CheckTrip.
 
 (* ---- dispatcher ---- *)
 
@@ -10,6 +10,7 @@ Definition check_sx (x : sx) : verdict :=
       else if sx_is "conv" k then with_lmtp_viol args (check_conv args)
       else if sx_is "reply" k then check_reply args
       else if sx_is "life" k then check_life args
+      else if sx_is "trip" k then check_trip args
       else bad_case
   | _ => bad_case
   end.
